@@ -1,7 +1,10 @@
 """Record: C19 (Record.tla / RecordTrace.tla / harness/cmd/record)."""
 from props import ModuleCheck, T
 
-REC_CLAUSES = ["C19_Fresh", "C19_Immutable", "C19_ImmutableRest", "C19_Unique", "Rejected_NoEffect"]
+REC_CLAUSES = ["C19_Fresh", "C19_Immutable", "C19_ImmutableRest", "C19_Unique", "Rejected_NoEffect",
+               # audit after round 7: "read back for ever after" with the expected value from the accepted creations
+               # (ghost made: returned id -> submitted contents, creator, tx hash), not from the previous state
+               "C19_Permanent"]
 
 REC_RND = T([dict(n=8, len=30, procs=6, cfg="users=2"),
              dict(n=1, len=320, procs=2, cfg="users=3,maxmsgs=10,maxtx=3,winfirst=30,winmod=25")],
